@@ -16,10 +16,10 @@ func init() { register("C15", "other", runC15) }
 
 // documented alphabets (StyleProperties doc comments + statement), DESIGN A.7
 const (
-	specDocRegClass = `^[0-9A-Za-z \t+\-.!#%_/*]*$`
-	specDocRegBad   = `//|/\*|\*/`
-	specDocEnum     = `^[A-Za-z\-]*$`
-	specCSSIdent    = `^[A-Za-z][\-A-Za-z]*$`
+	specDocRegClass  = `^[0-9A-Za-z \t+\-.!#%_/*]*$`
+	specDocRegBad    = `//|/\*|\*/`
+	specDocEnum      = `^[A-Za-z\-]*$`
+	specCSSIdent     = `^[A-Za-z][\-A-Za-z]*$`
 	specInnocuousCSS = "zGoSafezInvalidPropertyValue"
 )
 
